@@ -338,7 +338,7 @@ def dom_of(ty, transform, where):
     if transform == "ExecutionOptions::normalized_parallelism":
         if ty != "usize":
             raise TranslateError(where)
-        return "DPar par"
+        return "DPar 0"
     if ty == "String":
         return "DStr %s" % ("true" if transform == "str::to_lowercase" else "false")
     if transform:
@@ -439,7 +439,8 @@ def coq_enum(e):
 
 def coq_table(name, rows):
     body = ";\n   ".join("(%s, %s, %s)" % (coq_text(k), "true" if len_ else "false", d) for k, d, len_ in rows)
-    return "Definition %s_keys (par : Z) : list (text * bool * dom) :=\n  [%s].\n" % (name, body)
+    return ("Definition %s_rows : list (text * bool * dom) :=\n  [%s].\n"
+            "Definition %s_keys (par : Z) : list (text * bool * dom) := inst_rows par %s_rows.\n" % (name, body, name, name))
 
 
 def translate(repo):
